@@ -34,8 +34,6 @@ Section Graph.
   Hypothesis WF : wf_heap h.
   Hypothesis Same : forall l, l < b -> l <> lx -> nth_error h' l = nth_error h l.
   Hypothesis Closed : forall l o y, b <= l -> nth_error h' l = Some o -> In y (refs_of o) -> b <= y.
-  Hypothesis Upd : forall o' y, nth_error h' lx = Some o' -> In y (refs_of o') ->
-                     b <= y \/ exists o, nth_error h lx = Some o /\ In y (refs_of o).
 
   Lemma reach_other ly :
     ly < b -> (forall z, reach h ly z -> z <> lx) -> forall z, reach h' ly z -> reach h ly z /\ z < b.
@@ -44,19 +42,26 @@ Section Graph.
     rewrite (Same z IH2 (Hno z IH1)) in Hn. split; [eapply reach_step; eauto|]. eapply WF; eauto.
   Qed.
 
-  Lemma reach_upd : forall z, reach h' lx z -> b <= z \/ reach h lx z.
-  Proof.
-    intros z R. induction R as [|z o y R IH Hn Hin]; [right; constructor|].
-    destruct IH as [IH|IH]; [left; eapply Closed; eauto|].
-    destruct (Nat.eq_dec z lx) as [->|Hne].
-    - destruct (Upd o y Hn Hin) as [H|[o0 [H1 H2]]]; [left; exact H|right]. eapply reach_step; eauto.
-    - destruct (Nat.lt_ge_cases z b) as [Hlt|Hge]; [|left; eapply Closed; eauto].
-      rewrite (Same z Hlt Hne) in Hn. right. eapply reach_step; eauto.
-  Qed.
-
   Lemma reach_fresh r : b <= r -> forall z, reach h' r z -> b <= z.
   Proof. intros Hr z R. induction R as [|z o y R IH Hn Hin]; auto. eapply Closed; eauto. Qed.
 End Graph.
+
+(* the rewritten cell and the fresh cells may also refer to what lx reached before *)
+Section GraphA.
+  Variables (h h' : list obj) (lx : loc) (b : nat).
+  Hypothesis Same : forall l, l < b -> l <> lx -> nth_error h' l = nth_error h l.
+  Hypothesis ClosedA : forall l o y, b <= l -> nth_error h' l = Some o -> In y (refs_of o) -> b <= y \/ reach h lx y.
+  Hypothesis UpdA : forall o' y, nth_error h' lx = Some o' -> In y (refs_of o') -> b <= y \/ reach h lx y.
+
+  Lemma reach_updA : forall z, reach h' lx z -> b <= z \/ reach h lx z.
+  Proof.
+    intros z R. induction R as [|z o y R IH Hn Hin]; [right; constructor|].
+    destruct (Nat.lt_ge_cases z b) as [Hlt|Hge]; [|eapply ClosedA; eauto].
+    destruct IH as [IH|IH]; [lia|].
+    destruct (Nat.eq_dec z lx) as [->|Hne]; [eapply UpdA; eauto|].
+    rewrite (Same z Hlt Hne) in Hn. right. eapply reach_step; eauto.
+  Qed.
+End GraphA.
 
 Lemma vrefs_assoc_set a v d y :
   In y (vrefs (map snd (assoc_set a v d))) -> v = VRef y \/ In y (vrefs (map snd d)).
@@ -92,31 +97,32 @@ Qed.
 Definition ishape (b : nat) (h0 : list obj) (l : loc) (s' : state) : Prop :=
   b <= length (heap s') /\
   (forall x, x < b -> x <> l -> nth_error (heap s') x = nth_error h0 x) /\
-  (forall x o y, b <= x -> nth_error (heap s') x = Some o -> In y (refs_of o) -> b <= y) /\
-  (forall o' y, nth_error (heap s') l = Some o' -> In y (refs_of o') ->
-                b <= y \/ exists o, nth_error h0 l = Some o /\ In y (refs_of o)) /\
+  (forall x o y, b <= x -> nth_error (heap s') x = Some o -> In y (refs_of o) -> b <= y \/ reach h0 l y) /\
+  (forall o' y, nth_error (heap s') l = Some o' -> In y (refs_of o') -> b <= y \/ reach h0 l y) /\
   (forall c d, nth_error h0 l = Some (OInst c d) -> exists d', nth_error (heap s') l = Some (OInst c d')).
 
 Lemma ishape_refl l s : ishape (length (heap s)) (heap s) l s.
 Proof.
   split; [lia|]. split; [auto|]. split.
   - intros x o y Hx Hn. apply nth_error_None in Hx. congruence.
-  - split; [intros o' y Hn Hin; right; eauto|]. intros c d H. eauto.
+  - split; [intros o' y Hn Hin; right; eapply reach_step; [constructor|exact Hn|exact Hin]|]. intros c d H. eauto.
 Qed.
 
-Lemma ishape_same_heap b h0 l s s' : heap s' = heap s -> ishape b h0 l s -> ishape b h0 l s'.
-Proof. intros E H. unfold ishape in *. rewrite E. exact H. Qed.
+(* what the receiver reaches afterwards: cells allocated since, or what it reached before *)
+Lemma ishape_reach b h0 l s1 : ishape b h0 l s1 -> forall z, reach (heap s1) l z -> b <= z \/ reach h0 l z.
+Proof. intros (_ & S1 & C1 & U1 & _). apply (reach_updA h0 (heap s1) l b S1 C1 U1). Qed.
 
 Lemma ishape_trans b h0 l s1 s2 :
   l < b -> ishape b h0 l s1 -> ishape (length (heap s1)) (heap s1) l s2 -> ishape b h0 l s2.
 Proof.
-  intros Hl (L1 & S1 & C1 & U1 & K1) (L2 & S2 & C2 & U2 & K2).
+  intros Hl I1 (L2 & S2 & C2 & U2 & K2). pose proof (ishape_reach b h0 l s1 I1) as R1.
+  destruct I1 as (L1 & S1 & C1 & U1 & K1).
   split; [lia|]. split; [|split; [|split]].
   - intros x Hx Hne. rewrite S2 by (auto; lia). apply S1; auto.
   - intros x o y Hx Hn Hin. destruct (Nat.lt_ge_cases x (length (heap s1))) as [Hlt|Hge].
     + rewrite S2 in Hn by (auto; lia). eapply C1; eauto.
-    + specialize (C2 x o y Hge Hn Hin). lia.
-  - intros o' y Hn Hin. destruct (U2 o' y Hn Hin) as [H|[o1 [H1 H2]]]; [left; lia|]. eapply U1; eauto.
+    + destruct (C2 x o y Hge Hn Hin) as [H|H]; [left; lia|apply R1; exact H].
+  - intros o' y Hn Hin. destruct (U2 o' y Hn Hin) as [H|H]; [left; lia|apply R1; exact H].
   - intros c d H. destruct (K1 c d H) as [d1 H1]. eapply K2; eauto.
 Qed.
 
@@ -148,6 +154,20 @@ Section Peers.
   Lemma NoA_table b : table_ok ct b NoA.
   Proof. apply scalar_table_ok. exact Hscalar. Qed.
 
+  (* what the receiver reached in the heap the operation started from *)
+  Definition RL (h0 : list obj) (l : loc) : loc -> Prop := fun y => reach h0 l y.
+  Lemma RL_closed b h0 l : A_closed b (RL h0 l) NoW h0.
+  Proof.
+    split; [|intros x []]. intros x o Hx _ Hn. apply obj_ok_of_refs. intros y Hy. right. eapply reach_step; eauto.
+  Qed.
+  Lemma RL_dnc b h0 l : dnc_allowed ct b (RL h0 l) h0.
+  Proof.
+    intros x c d k a sp v _ _ Hk _ Ha Hd. destruct (lookup_cls_In _ _ _ Hk) as [Hkin _].
+    destruct (lookup_attr_In _ _ _ Ha) as [Hspin _]. rewrite (no_dnc_attr k sp Hkin Hspin) in Hd. discriminate.
+  Qed.
+  Lemma RL_table b h0 l : table_ok ct b (RL h0 l).
+  Proof. apply scalar_table_ok. exact Hscalar. Qed.
+
   (* ---------- in-place writes: allocation phases and writes to the receiver ---------- *)
   Lemma vrefs_assoc_del a d y : In y (vrefs (map snd (assoc_del a d))) -> In y (vrefs (map snd d)).
   Proof.
@@ -156,22 +176,23 @@ Section Peers.
     apply in_flat_map. exists x. split; auto. apply in_map_iff. exists p. auto.
   Qed.
 
-  Lemma old_cell b h0 s l o : sinv b NoA NoW h0 s -> l < b -> nth_error h0 l = Some o -> nth_error (heap s) l = Some o.
+  Lemma old_cell b h0 s l o : sinv b (RL h0 l) NoW h0 s -> l < b -> nth_error h0 l = Some o -> nth_error (heap s) l = Some o.
   Proof. intros (_ & Old & _) Hl Hn. destruct (Old l Hl) as [[]|E]. congruence. Qed.
 
   (* a state reached by allocation only *)
-  Lemma sinv_ishape b h0 l s1 : sinv b NoA NoW h0 s1 -> l < b -> ishape b h0 l s1.
+  Lemma sinv_ishape b h0 l s1 : sinv b (RL h0 l) NoW h0 s1 -> l < b -> ishape b h0 l s1.
   Proof.
     intros (L & Old & Cl) Hl. split; [exact L|]. split; [|split; [|split]].
     - intros x Hx _. destruct (Old x Hx) as [[]|E]. exact E.
-    - intros x o y Hx Hn Hin. destruct (obj_ok_refs b NoA o y (Cl x o Hx Hn) Hin) as [H|[]]. exact H.
-    - intros o' y Hn Hin. right. exists o'. destruct (Old l Hl) as [[]|E]. rewrite <- E. auto.
+    - intros x o y Hx Hn Hin. exact (obj_ok_refs b (RL h0 l) o y (Cl x o Hx Hn) Hin).
+    - intros o' y Hn Hin. right. destruct (Old l Hl) as [[]|E]. rewrite E in Hn.
+      eapply reach_step; [constructor|exact Hn|exact Hin].
     - intros c d H. exists d. destruct (Old l Hl) as [[]|E]. congruence.
   Qed.
   (* ... followed by one write of a dictionary with old or new references *)
   Lemma upd_ishape b h0 l s1 c d d' :
-    sinv b NoA NoW h0 s1 -> l < b -> nth_error h0 l = Some (OInst c d) ->
-    (forall y, In y (vrefs (map snd d')) -> b <= y \/ In y (vrefs (map snd d))) ->
+    sinv b (RL h0 l) NoW h0 s1 -> l < b -> nth_error h0 l = Some (OInst c d) ->
+    (forall y, In y (vrefs (map snd d')) -> b <= y \/ reach h0 l y) ->
     ishape b h0 l (upd s1 l (OInst c d')).
   Proof.
     intros I1 Hl Hn Hrefs. assert (Hl1 := old_cell b h0 s1 l _ I1 Hl Hn). destruct I1 as (L & Old & Cl).
@@ -179,9 +200,9 @@ Section Peers.
     unfold upd. split; [simpl; rewrite set_nth_length; exact L|]. split; [|split; [|split]]; simpl.
     - intros x Hx Hne. rewrite set_nth_other by auto. destruct (Old x Hx) as [[]|E]. exact E.
     - intros x o y Hx Hnx Hin. rewrite set_nth_other in Hnx by lia.
-      destruct (obj_ok_refs b NoA o y (Cl x o Hx Hnx) Hin) as [H|[]]. exact H.
+      exact (obj_ok_refs b (RL h0 l) o y (Cl x o Hx Hnx) Hin).
     - intros o' y Hn' Hin. rewrite nth_error_set_nth_same in Hn' by exact Hlt. inversion Hn'; subst o'.
-      simpl in Hin. destruct (Hrefs y Hin) as [H|H]; [left; exact H|right]. exists (OInst c d). auto.
+      simpl in Hin. exact (Hrefs y Hin).
     - intros c0 d0 H0. rewrite nth_error_set_nth_same by exact Hlt. rewrite Hn in H0. inversion H0; subst. eauto.
   Qed.
 
@@ -224,8 +245,8 @@ Section Peers.
 
     (* mutate_attr(l, a, value, inplace) from a state reached by allocation only *)
     Lemma mutate_attr_ishape a c d k value tc force skip s1 r s' :
-      sinv b NoA NoW h0 s1 -> nth_error h0 l = Some (OInst c d) -> lookup_cls ct c = Some k ->
-      okv b NoA value ->
+      sinv b (RL h0 l) NoW h0 s1 -> nth_error h0 l = Some (OInst c d) -> lookup_cls ct c = Some k ->
+      okv b (RL h0 l) value ->
       mutate_attr ct rec l a value true tc force skip s1 = (r, s') -> ishape b h0 l s'.
     Proof.
       intros I1 Hl Hc Hval Hrun. assert (Hl1 := old_cell b h0 s1 l _ I1 Hlb Hl).
@@ -243,8 +264,8 @@ Section Peers.
       unfold bind at 1 in Hrun. rewrite (thawed_nothaw_eq ct l _ s1 c d k Hl1 Hc) in Hrun.
       rewrite (bind_ok _ _ _ _ _ (raw_setattr_run l a value s1 c d Hl1)) in Hrun.
       assert (I2 : ishape b h0 l (upd s1 l (OInst c (assoc_set a value d)))).
-      { apply (upd_ishape b h0 l s1 c d); auto. intros y Hy. destruct (vrefs_assoc_set a value d y Hy) as [->|Hd]; [|right; exact Hd].
-        destruct Hval as [H|[]]. left; exact H. }
+      { apply (upd_ishape b h0 l s1 c d); auto. intros y Hy. destruct (vrefs_assoc_set a value d y Hy) as [->|Hd]; [exact Hval|].
+        right. eapply reach_step; [constructor|exact Hl|exact Hd]. }
       destruct ((if skip then ret tt else invalidate_attrs ct rec l a) (upd s1 l (OInst c (assoc_set a value d))))
         as [r3 s3] eqn:E3.
       assert (I3 := after_write_ishape a skip _ r3 s3 I2 E3).
@@ -253,8 +274,8 @@ Section Peers.
 
     (* value <- M1 (allocation only) ;; mutate_attr(l, a, value, inplace) *)
     Lemma prep_write_ishape a c d k (M1 : M val) tc force skip s r s' :
-      sinv b NoA NoW h0 s -> nth_error h0 l = Some (OInst c d) -> lookup_cls ct c = Some k ->
-      sep b NoA NoW h0 M1 (okv b NoA) ->
+      sinv b (RL h0 l) NoW h0 s -> nth_error h0 l = Some (OInst c d) -> lookup_cls ct c = Some k ->
+      sep b (RL h0 l) NoW h0 M1 (okv b (RL h0 l)) ->
       (v <- M1 ;; mutate_attr ct rec l a v true tc force skip) s = (r, s') -> ishape b h0 l s'.
     Proof.
       intros I0 Hl Hc Hsep Hrun. destruct (Hsep s I0) as [I1 F1]. unfold bind in Hrun.
@@ -265,7 +286,7 @@ Section Peers.
 
     (* object.__delattr__, then the invalidation *)
     Lemma del_tail_ishape a c d (skip : bool) s r s' :
-      sinv b NoA NoW h0 s -> nth_error h0 l = Some (OInst c d) ->
+      sinv b (RL h0 l) NoW h0 s -> nth_error h0 l = Some (OInst c d) ->
       (raw_delattr l a ;;; (if skip then ret tt else invalidate_attrs ct rec l a) ;;; ret VNone) s = (r, s') ->
       ishape b h0 l s'.
     Proof.
@@ -277,7 +298,8 @@ Section Peers.
       change (mkst (set_nth l (OInst c (assoc_del a d)) (heap s)) (ncalls s) (fail_at s))
         with (upd s l (OInst c (assoc_del a d))) in Hrun.
       assert (I2 : ishape b h0 l (upd s l (OInst c (assoc_del a d)))).
-      { apply (upd_ishape b h0 l s c d); auto. intros y Hy. right. eapply vrefs_assoc_del; eauto. }
+      { apply (upd_ishape b h0 l s c d); auto. intros y Hy. right.
+        eapply reach_step; [constructor|exact Hl|]. simpl. eapply vrefs_assoc_del; eauto. }
       unfold bind in Hrun.
       destruct ((if skip then ret tt else invalidate_attrs ct rec l a) (upd s l (OInst c (assoc_del a d))))
         as [r3 s3] eqn:E3.
@@ -286,9 +308,9 @@ Section Peers.
     Qed.
   End Shapes.
 
-  Lemma exec_sepf f b h0 :
-    forall k, call_ok ct b NoA NoW k -> sep b NoA NoW h0 (exec ct f k) (post b NoA k).
-  Proof. exact (proj1 (exec_sep ct no_dnc wf_owner b NoA NoW h0 (NoA_closed' b h0) (NoA_table b) (NoA_dnc' b h0) f)). Qed.
+  Lemma exec_sepf f b h0 l :
+    forall k, call_ok ct b (RL h0 l) NoW k -> sep b (RL h0 l) NoW h0 (exec ct f k) (post b (RL h0 l) k).
+  Proof. exact (proj1 (exec_sep ct no_dnc wf_owner b (RL h0 l) NoW h0 (RL_closed b h0 l) (RL_table b h0 l) (RL_dnc b h0 l) f)). Qed.
 
   (* __delattr__ with the recursion at fuel f, given what invalidation at that fuel does *)
   Lemma delattr_ishape f l
@@ -298,7 +320,7 @@ Section Peers.
     delattr_ ct (exec ct f) l a false skip s = (r, s') -> ishape (length (heap s)) (heap s) l s'.
   Proof.
     intros Hrun. set (rec := exec ct f) in *. set (h0 := heap s). set (b := length h0).
-    assert (I0 : sinv b NoA NoW h0 s) by (apply sinv_start; reflexivity).
+    assert (I0 : sinv b (RL h0 l) NoW h0 s) by (apply sinv_start; reflexivity).
     unfold delattr_ in Hrun.
     destruct (nth_error (heap s) l) as [o|] eqn:Hl.
     2:{ unfold read_inst, bind, read in Hrun. rewrite Hl in Hrun. inversion Hrun; subst. apply ishape_refl. }
@@ -314,16 +336,16 @@ Section Peers.
     rewrite bind_ret_l' in Hrun. change (if false then None else lookup_attr k a) with (lookup_attr k a) in Hrun.
     destruct (lookup_attr k a) as [sp|] eqn:Ea.
     2:{ eapply (del_tail_ishape rec l Hinv b h0 Hlb a c d skip); eauto. }
-    assert (Hspok : spec_ok b NoA sp) by (eapply lookup_attr_ok; eauto using NoA_table).
-    destruct (lookup_default_value_sep ct no_dnc b NoA NoW h0 (NoA_closed' b h0) (NoA_table b) (NoA_dnc' b h0)
-                rec (exec_sepf f b h0) sp k Hspok s I0) as [I1 F1].
+    assert (Hspok : spec_ok b (RL h0 l) sp) by (eapply lookup_attr_ok; eauto using RL_table).
+    destruct (lookup_default_value_sep ct no_dnc b (RL h0 l) NoW h0 (RL_closed b h0 l) (RL_table b h0 l) (RL_dnc b h0 l)
+                rec (exec_sepf f b h0 l) sp k Hspok s I0) as [I1 F1].
     unfold bind at 1 in Hrun.
     destruct (lookup_default_value ct rec sp k s) as [[dv|e] s0] eqn:Ed; simpl in I1, F1.
     2:{ inversion Hrun; subst. now apply sinv_ishape. }
     destruct (is_missing dv).
     - eapply (del_tail_ishape rec l Hinv b h0 Hlb a c d skip); eauto.
     - eapply (prep_write_ishape rec l Hinv b h0 Hlb a c d k); eauto.
-      apply (prepare_attr_value_sep ct b NoA NoW h0 (NoA_closed' b h0) rec (exec_sepf f b h0) sp l dv None);
+      apply (prepare_attr_value_sep ct b (RL h0 l) NoW h0 (RL_closed b h0 l) rec (exec_sepf f b h0 l) sp l dv None);
         [exact Hspok|now apply freshv_okv|exact I].
   Qed.
 
@@ -412,7 +434,7 @@ Section Peers.
   Proof.
     intros Hv Hrun. rewrite exec_set_unfold in Hrun. set (rec := exec ct 39) in *.
     set (h0 := heap s). set (b := length h0). unfold inplace_shape. fold h0. fold b.
-    assert (I0 : sinv b NoA NoW h0 s) by (apply sinv_start; reflexivity).
+    assert (I0 : sinv b (RL h0 l) NoW h0 s) by (apply sinv_start; reflexivity).
     unfold setattr_ in Hrun.
     destruct (nth_error (heap s) l) as [o|] eqn:Hl.
     2:{ unfold read_inst, bind, read in Hrun. rewrite Hl in Hrun. inversion Hrun; subst. apply ishape_refl. }
@@ -425,8 +447,8 @@ Section Peers.
     assert (Hlb : l < b) by (apply nth_error_Some; unfold h0; congruence).
     eapply (prep_write_ishape rec l (inv_ishape 39 l) b h0 Hlb a c d k); eauto.
     destruct (lookup_attr k a) as [sp|] eqn:Ea.
-    - apply (prepare_attr_value_sep ct b NoA NoW h0 (NoA_closed' b h0) rec (exec_sepf 39 b h0) sp l v None);
-        [eapply lookup_attr_ok; eauto using NoA_table|now apply nonref_okv|exact I].
+    - apply (prepare_attr_value_sep ct b (RL h0 l) NoW h0 (RL_closed b h0 l) rec (exec_sepf 39 b h0 l) sp l v None);
+        [eapply lookup_attr_ok; eauto using RL_table|now apply nonref_okv|exact I].
     - apply sep_ret. now apply nonref_okv.
   Qed.
 
@@ -444,7 +466,7 @@ Section Peers.
     destruct hp; simpl in Hhp; try contradiction.
     - (* with_<a> *)
       set (h0 := heap s). set (b := length h0). unfold inplace_shape. fold h0. fold b.
-      assert (I0 : sinv b NoA NoW h0 s) by (apply sinv_start; reflexivity).
+      assert (I0 : sinv b (RL h0 l) NoW h0 s) by (apply sinv_start; reflexivity).
       unfold spec_for in Hrun.
       destruct (nth_error (heap s) l) as [o|] eqn:Hl.
       2:{ unfold read_inst, bind, read in Hrun. rewrite Hl in Hrun. inversion Hrun; subst. apply ishape_refl. }
@@ -459,8 +481,8 @@ Section Peers.
       destruct (lookup_attr_In _ _ _ Ea) as [_ Hname]. rewrite Hname in Hrun.
       assert (Hlb : l < b) by (apply nth_error_Some; unfold h0; congruence).
       eapply (prep_write_ishape (exec ct XFUEL) l (inv_ishape XFUEL l) b h0 Hlb a c d k); eauto.
-      apply (prepare_attr_value_sep ct b NoA NoW h0 (NoA_closed' b h0) (exec ct XFUEL) (exec_sepf XFUEL b h0) sp l (pos0 h) None);
-        [eapply lookup_attr_ok; eauto using NoA_table| |exact I].
+      apply (prepare_attr_value_sep ct b (RL h0 l) NoW h0 (RL_closed b h0 l) (exec ct XFUEL) (exec_sepf XFUEL b h0 l) sp l (pos0 h) None);
+        [eapply lookup_attr_ok; eauto using RL_table| |exact I].
       apply nonref_okv. unfold pos0. destruct (nth_in_or_default 0 (h_pos h) VMissing) as [Hin|E0]; [|rewrite E0; exact I].
       rewrite Forall_forall in Hpos. auto.
     - (* reset_<a> *)
@@ -613,7 +635,8 @@ Section Peers.
       destruct Hcase as [->|(lx & Ex & Hshape)]; [apply Hsame; reflexivity|].
       unfold inplace_shape in Hshape. change (heap s0) with h0 in Hshape. fold b in Hshape.
       assert (Hlx : lx < b) by (apply (P2 x lx Hx Ex)).
-      destruct Hshape as (Hlen & Same & Closed & Upd & _).
+      pose proof (ishape_reach b h0 lx s' Hshape) as Hreach.
+      destruct Hshape as (Hlen & Same & _).
       split; [intros y Hy; rewrite app_length; specialize (P1 y Hy); lia|].
       split; [intros y l Hy; rewrite nth_old by auto; intro Hl; specialize (P2 y l Hy Hl); fold h0 in P2; fold b in P2; lia|].
       split; [intros y1 y2 l1 l2 H1 H2; rewrite !nth_old by auto; apply P3; auto|].
@@ -624,10 +647,10 @@ Section Peers.
       { intros y0 l0 Hy0 El0 Hne0 z0 R0 ->. eapply (P4 y0 x l0 lx lx); eauto. constructor. }
       destruct (Nat.eq_dec l1 lx) as [->|N1]; destruct (Nat.eq_dec l2 lx) as [->|N2]; try congruence.
       + destruct (reach_other h0 (heap s') lx WF Same l2 Hb2 (Hother y2 l2 H2 E2 N2) z R2) as [R2' Hz].
-        destruct (reach_upd h0 (heap s') lx Same Closed Upd z R1) as [Hge|R1']; [fold b in Hz; lia|].
+        destruct (Hreach z R1) as [Hge|R1']; [fold b in Hz; lia|].
         eapply (P4 y1 y2 lx l2 z); eauto.
       + destruct (reach_other h0 (heap s') lx WF Same l1 Hb1 (Hother y1 l1 H1 E1 N1) z R1) as [R1' Hz].
-        destruct (reach_upd h0 (heap s') lx Same Closed Upd z R2) as [Hge|R2']; [fold b in Hz; lia|].
+        destruct (Hreach z R2) as [Hge|R2']; [fold b in Hz; lia|].
         eapply (P4 y1 y2 l1 lx z); eauto.
       + destruct (reach_other h0 (heap s') lx WF Same l1 Hb1 (Hother y1 l1 H1 E1 N1) z R1) as [R1' _].
         destruct (reach_other h0 (heap s') lx WF Same l2 Hb2 (Hother y2 l2 H2 E2 N2) z R2) as [R2' _].
